@@ -34,6 +34,18 @@ class Fold:
                     self.env[s.targets[0].id] = self.ev(s.value)
                 except Unrecognised:
                     pass
+            elif isinstance(s, ast.Assign) and len(s.targets) == 1 and isinstance(s.targets[0], ast.Tuple) and all(isinstance(x, ast.Name) for x in s.targets[0].elts):
+                # X, Y, Z, T = range(4)   /   a, b = 0, 1
+                try:
+                    if isinstance(s.value, ast.Call) and isinstance(s.value.func, ast.Name) and s.value.func.id == 'range' and len(s.value.args) == 1 and isinstance(s.value.args[0], ast.Constant):
+                        vals = [sp.Integer(i_) for i_ in range(s.value.args[0].value)]
+                    else:
+                        vals = self.ev(s.value)
+                    if isinstance(vals, list) and len(vals) == len(s.targets[0].elts):
+                        for x, v in zip(s.targets[0].elts, vals):
+                            self.env[x.id] = v
+                except Unrecognised:
+                    pass
 
     def num(self, v):
         if isinstance(v, bool):
@@ -60,11 +72,18 @@ class Fold:
             return self.ev(e.operand, env)
         if isinstance(e, (ast.List, ast.Tuple)):
             return [self.ev(x, env) for x in e.elts]
-        if isinstance(e, ast.Call) and (self.mod.dotted(e.func) or '') in ('numpy.array', 'numpy.asarray') and e.args:
+        if isinstance(e, ast.Call) and (self.mod.dotted(e.func) or '') in ('numpy.array', 'numpy.asarray', 'numpy.stack') and e.args:
             v = self.ev(e.args[0], env)
             if isinstance(v, list) and v and isinstance(v[0], list) and not isinstance(v[0][0], (list, sp.MatrixBase)):
                 return sp.Matrix(v)
             return v
+        if isinstance(e, ast.Call) and (self.mod.dotted(e.func) or '') == 'numpy.diag' and len(e.args) == 1:
+            v = self.ev(e.args[0], env)
+            if isinstance(v, list) and v and not isinstance(v[0], (list, sp.MatrixBase)):
+                return sp.diag(*v)
+            raise Unrecognised('np.diag of %s' % unparse(e.args[0]))
+        if isinstance(e, ast.Call) and (self.mod.dotted(e.func) or '') in ('numpy.eye', 'numpy.identity') and len(e.args) == 1 and isinstance(e.args[0], ast.Constant) and isinstance(e.args[0].value, int):
+            return sp.eye(e.args[0].value)
         if isinstance(e, ast.Subscript):
             b = self.ev(e.value, env)
             i = self.ev(e.slice, env)
@@ -145,6 +164,14 @@ class _Raised(Exception):
     pass
 
 
+class _Break(Exception):
+    pass
+
+
+class _Continue(Exception):
+    pass
+
+
 class GridInterp:
     """Evaluates Grid_gamma for one concrete tag: string tests are evaluated on the tag, matrix expressions are folded exactly.
     Tracks whether a module-level table (an object reachable from the module constants) is updated in place."""
@@ -190,6 +217,35 @@ class GridInterp:
         except Exception as ex_:
             raise Unrecognised('cannot evaluate %s: %r' % (unparse(e), ex_))
 
+    def seq(self, e, env):
+        """a literal tuple / list of constants or of constant tuples (possibly through a module-level name)"""
+        if isinstance(e, ast.Name):
+            for st in self.mod.tree.body:
+                if isinstance(st, ast.Assign) and len(st.targets) == 1 and isinstance(st.targets[0], ast.Name) and st.targets[0].id == e.id:
+                    return self.seq(st.value, env)
+        if isinstance(e, (ast.Tuple, ast.List)):
+            out = []
+            for x in e.elts:
+                if isinstance(x, (ast.Tuple, ast.List)):
+                    out.append(tuple(self.seq(x, env)))
+                elif isinstance(x, ast.Constant):
+                    out.append(x.value if isinstance(x.value, str) else self.fold.num(x.value))
+                else:
+                    out.append(self.ev(x, env))
+            return out
+        if isinstance(e, ast.Call) and isinstance(e.func, ast.Name) and e.func.id == 'range' and len(e.args) == 1 and isinstance(e.args[0], ast.Constant):
+            return [sp.Integer(i_) for i_ in range(e.args[0].value)]
+        raise Unrecognised('loop over %s' % unparse(e))
+
+    def bind(self, target, item, env):
+        if isinstance(target, ast.Name):
+            env[target.id] = item
+        elif isinstance(target, ast.Tuple) and isinstance(item, (tuple, list)) and len(item) == len(target.elts):
+            for t_, v_ in zip(target.elts, item):
+                self.bind(t_, v_, env)
+        else:
+            raise Unrecognised('loop target %s' % unparse(target))
+
     def run(self, tag):
         env = dict(self.fold.env)
         env[self.f.args.args[0].arg] = tag
@@ -226,6 +282,24 @@ class GridInterp:
                 r = self.block(s.body if t else s.orelse, env)
                 if r is not None:
                     return r
+            elif isinstance(s, ast.For) and not s.orelse:
+                seq = self.seq(s.iter, env)
+                broke = False
+                for item in seq:
+                    self.bind(s.target, item, env)
+                    try:
+                        r = self.block(s.body, env)
+                    except _Break:
+                        broke = True
+                        break
+                    except _Continue:
+                        continue
+                    if r is not None:
+                        return r
+            elif isinstance(s, ast.Break):
+                raise _Break()
+            elif isinstance(s, ast.Continue):
+                raise _Continue()
             elif isinstance(s, ast.Return):
                 return ('return', self.ev(s.value, env) if s.value is not None else None)
             elif isinstance(s, ast.Raise):
@@ -335,9 +409,18 @@ def d3_epsilon(ctx, m):
             continue
         g = _copy.deepcopy(f)
         g.decorator_list = []
+        # module-level helpers the function calls (plain index arithmetic as well)
+        called = {call_name(c_) for c_ in ast.walk(f) if isinstance(c_, ast.Call)}
+        helpers = []
+        for h_ in m.tree.body:
+            if isinstance(h_, ast.FunctionDef) and h_.name in called and h_.name != fname \
+                    and not any(isinstance(x, (ast.Import, ast.ImportFrom, ast.Global, ast.Nonlocal, ast.While, ast.Attribute)) for x in ast.walk(h_)):
+                h2 = _copy.deepcopy(h_)
+                h2.decorator_list = []
+                helpers.append(h2)
         try:
             ns = {'__builtins__': safe}
-            exec(compile(ast.fix_missing_locations(ast.Module(body=consts + [g], type_ignores=[])), '<epsilon>', 'exec'), ns)
+            exec(compile(ast.fix_missing_locations(ast.Module(body=consts + helpers + [g], type_ignores=[])), '<epsilon>', 'exec'), ns)
             fn = ns[fname]
         except Exception as ex_:
             ctx.unrec(rule, 'dirac.py:%s' % fname, 'cannot evaluate the function: %r' % ex_)
